@@ -608,6 +608,65 @@ func c07(args []string) int {
 			out.Sample(map[string]interface{}{"chain": names, "estimated_size": size}, 5)
 		}
 	}
+	// a small chain must not cause allocations whatever was logged before it: after events far larger than the
+	// pooled 500-byte buffer (which have grown the pooled buffers), emitting [large event, small chain] may cost
+	// no more than emitting the large event alone. (The large event itself is outside the allocation-free promise;
+	// only the difference is judged.)
+	nseq := f.N(60, 3000)
+	for c := 0; c < nseq; c++ {
+		idx++
+		if !f.Mine(idx) {
+			continue
+		}
+		r := rng.New(f.Seed, 0xc07c, uint64(c))
+		var chain []step
+		size := 60
+		for tries := 0; len(chain) < 1+r.Intn(6) && tries < 30; tries++ {
+			st := mkStep(allocFreeNames[r.Intn(len(allocFreeNames))], r)
+			if size+st.size > 400 {
+				continue
+			}
+			size += st.size
+			chain = append(chain, st)
+		}
+		lgi := r.Intn(len(loggers))
+		small := &loggers[lgi].l
+		big := strings.Repeat("L", []int{5000, 20000, 60000}[r.Intn(3)])
+		bigDict := r.Bool()
+		large := func() {
+			e := base.Info().Str("big", big)
+			if bigDict {
+				e = e.Dict("d", zerolog.Dict().Str("s", "t"))
+			}
+			e.Msg("large")
+		}
+		both := func() {
+			large()
+			e := small.Info()
+			for i := range chain {
+				e = chain[i].f(e)
+			}
+			e.Msg("small")
+		}
+		for i := 0; i < 30; i++ {
+			both()
+		}
+		aLarge := testing.AllocsPerRun(100, large)
+		for i := 0; i < 10; i++ {
+			both()
+		}
+		aBoth := testing.AllocsPerRun(100, both)
+		names := make([]string, len(chain))
+		for i := range chain {
+			names[i] = chain[i].name
+		}
+		if aBoth-aLarge >= 1 {
+			out.Violate("allocs:after-large-event", fmt.Sprintf("a %d-byte event followed by the small chain logger=%s Info().%s.Msg(..) costs %.1f allocs/run, the large event alone %.1f: the small chain makes the pair allocate", len(big), loggers[lgi].name, strings.Join(names, "."), aBoth, aLarge),
+				map[string]interface{}{"check": "c07", "seed": f.Seed, "tier": f.Tier, "index": idx})
+		}
+		out.Case(rng.HashStr(fmt.Sprint("seq", c, names, len(big), lgi)), true)
+		out.Count("large_then_small_sequences", 1)
+	}
 	out.Count("bytes_steps_longer_than_32_needing_escapes_generated", longEscapedBytes)
 	out.Extra["binary_log_build"] = isBinaryBuild()
 	out.Extra["alloc_free_method_set"] = allocFreeNames
